@@ -1,3 +1,6 @@
+#[cfg(kanal_verif)]
+#[allow(unused_imports)]
+use crate::verif::{core, std};
 use crate::{
     backoff::{self, get_parallelism},
     pointer::KanalPtr,
@@ -91,7 +94,13 @@ impl<T> Signal<T> {
             return v == UNLOCKED;
         }
 
+        #[cfg(kanal_verif)]
+        crate::verif::spin_begin(0);
         for _ in 0..32 {
+            #[cfg(kanal_verif)]
+            if crate::verif::spin_cut(0) {
+                break;
+            }
             //backoff::spin_wait(96);
             backoff::yield_now_std();
             let v = self.state.load(Ordering::Relaxed);
@@ -125,7 +134,13 @@ impl<T> Signal<T> {
             fence(Ordering::Acquire);
             return v == UNLOCKED;
         }
+        #[cfg(kanal_verif)]
+        crate::verif::spin_begin(1);
         for _ in 0..256 {
+            #[cfg(kanal_verif)]
+            if crate::verif::spin_cut(1) {
+                break;
+            }
             backoff::yield_now_std();
             let v = self.state.load(Ordering::Relaxed);
             if v < LOCKED {
@@ -136,6 +151,8 @@ impl<T> Signal<T> {
         match &self.waker {
             KanalWaker::Sync(waker) => {
                 // waker is not shared as the state is not `LOCKED_STARVATION`
+                #[cfg(kanal_verif)]
+                crate::verif::wr(waker.get());
                 unsafe {
                     *waker.get() = Some(std::thread::current());
                 }
@@ -163,7 +180,13 @@ impl<T> Signal<T> {
     /// Waits for the signal event in sync mode with a timeout
     pub(crate) fn wait_timeout(&self, until: Instant) -> bool {
         if get_parallelism() > 1 {
+            #[cfg(kanal_verif)]
+            crate::verif::spin_begin(2);
             for _ in 0..32 {
+                #[cfg(kanal_verif)]
+                if crate::verif::spin_cut(2) {
+                    break;
+                }
                 let v = self.state.load(Ordering::Relaxed);
                 if v < LOCKED {
                     fence(Ordering::Acquire);
@@ -189,6 +212,8 @@ impl<T> Signal<T> {
     #[inline(always)]
     #[cfg(feature = "async")]
     pub(crate) fn set_ptr(&mut self, ptr: KanalPtr<T>) {
+        #[cfg(kanal_verif)]
+        crate::verif::wr(&self.ptr);
         self.ptr = ptr;
     }
 
@@ -196,6 +221,8 @@ impl<T> Signal<T> {
     #[inline(always)]
     #[cfg(feature = "async")]
     pub(crate) fn register_waker(&mut self, waker: &Waker) {
+        #[cfg(kanal_verif)]
+        crate::verif::wr(&self.waker);
         self.waker = KanalWaker::Async(waker.clone())
     }
 
@@ -221,6 +248,10 @@ impl<T> Signal<T> {
 
     /// Wakes the sleeping thread or coroutine
     unsafe fn wake(this: *const Self, state: u8) {
+        #[cfg(kanal_verif)]
+        let _peer = crate::verif::peer_enter(this);
+        #[cfg(kanal_verif)]
+        crate::verif::rd(&(*this).waker);
         match &(*this).waker {
             KanalWaker::Sync(waker) => {
                 if (*this)
@@ -228,6 +259,8 @@ impl<T> Signal<T> {
                     .compare_exchange(LOCKED, state, Ordering::Release, Ordering::Acquire)
                     .is_err()
                 {
+                    #[cfg(kanal_verif)]
+                    crate::verif::rd(waker.get());
                     let thread = (*waker.get()).as_ref().unwrap().clone();
                     (*this).state.store(state, Ordering::Release);
                     thread.unpark();
@@ -248,6 +281,8 @@ impl<T> Signal<T> {
     /// Safety: it's only safe to be called only once on the receive signals
     /// that are not terminated
     pub(crate) unsafe fn send(this: *const Self, d: T) {
+        #[cfg(kanal_verif)]
+        let _peer = crate::verif::peer_enter(this);
         (*this).ptr.write(d);
         Self::wake(this, UNLOCKED);
     }
@@ -257,6 +292,8 @@ impl<T> Signal<T> {
     /// that are not terminated
     #[allow(unused)]
     pub(crate) unsafe fn send_copy(this: *const Self, d: *const T) {
+        #[cfg(kanal_verif)]
+        let _peer = crate::verif::peer_enter(this);
         (*this).ptr.copy(d);
         Self::wake(this, UNLOCKED);
     }
@@ -265,6 +302,8 @@ impl<T> Signal<T> {
     /// Safety: it's only safe to be called only once on send signals that are
     /// not terminated
     pub(crate) unsafe fn recv(this: *const Self) -> T {
+        #[cfg(kanal_verif)]
+        let _peer = crate::verif::peer_enter(this);
         let r = (*this).ptr.read();
         Self::wake(this, UNLOCKED);
         r
@@ -287,7 +326,21 @@ impl<T> Signal<T> {
 
     /// Returns signal terminator for other side of channel
     pub(crate) fn get_terminator(&self) -> SignalTerminator<T> {
+        #[cfg(kanal_verif)]
+        {
+            crate::verif::publish(self);
+            crate::verif::wr(&self.ptr);
+            crate::verif::wr(&self.waker);
+        }
         (self as *const Signal<T>).into()
+    }
+}
+
+// End of life of a waiter: the owner returns / the future is dropped.
+#[cfg(kanal_verif)]
+impl<T> Drop for Signal<T> {
+    fn drop(&mut self) {
+        crate::verif::retire(self);
     }
 }
 
